@@ -137,6 +137,10 @@ func cmdCheck(args []string) {
 		obls := run.generate(en, p)
 		all = append(all, obls...)
 	}
+	maxNotProved = 24
+	if *tier == "thorough" {
+		maxNotProved = 200
+	}
 	// cover (vacuity) queries are obligations of kind "cover"
 	genT := time.Since(t0)
 	ors := dischargeAll(all, *timeout, 14)
@@ -147,9 +151,14 @@ func cmdCheck(args []string) {
 	// verdicts
 	kfs := loadKnownFindings(filepath.Join(*verif, "known_findings.json"))
 	violations := 0
+	skipped := 0
 	os.MkdirAll(filepath.Join(*verif, "replays", id), 0o755)
 	for i, r := range ors {
 		if r.Verdict == "proved" {
+			continue
+		}
+		if r.Verdict == "skipped" {
+			skipped++
 			continue
 		}
 		if kf := matchFinding(kfs, id, r.Name); kf != nil {
@@ -174,7 +183,12 @@ func cmdCheck(args []string) {
 		fmt.Printf("VIOLATION property=%s replay=%s obligation=%s no-failing-input-found\n", id, path, c)
 	}
 	wall := time.Since(t0)
-	writeEvidence(run, *verif, wall, violations, nil)
+	var evNotes []string
+	if skipped > 0 {
+		evNotes = append(evNotes, fmt.Sprintf("%d obligations were not attempted because the failure limit (%d) was reached; they are not counted as discharged", skipped, maxNotProved))
+		fmt.Printf("%d further obligations not attempted (failure limit reached)\n", skipped)
+	}
+	writeEvidence(run, *verif, wall, violations, evNotes)
 	proved := 0
 	for _, r := range ors {
 		if r.Verdict == "proved" {
